@@ -406,7 +406,7 @@ pub fn shrink(cfg: &RunCfg, ops: &[Op], mode: &str, prop: &str, clause: &str) ->
     // long-history runs: one execution may take seconds, so the budget is also bounded in time
     let per_exec = t0.elapsed().as_secs_f64().max(0.0005);
     let mut chunk = (cur.len() / 2).max(1);
-    let mut budget: i64 = (400.0f64).min(90.0 / per_exec).max(8.0) as i64;
+    let mut budget: i64 = (400.0f64).min(40.0 / per_exec).max(8.0) as i64;
     loop {
         let mut i = 0;
         let mut progressed = false;
